@@ -6,6 +6,7 @@ func init() {
 	vfHarnesses["C15_boundary_lines"] = vfhC15BoundaryLines
 	vfHarnesses["C15_boundary_types"] = vfhC15BoundaryTypes
 	vfHarnesses["C15_point_on_surface"] = vfhC15PointOnSurface
+	vfHarnesses["C15_point_on_surface_nested"] = vfhC15PointOnSurfaceNested
 }
 
 // Boundary of a MultiLineString of two 2-point lines: the end points that
@@ -111,5 +112,46 @@ func vfhC15PointOnSurface() {
 	rxy, ok := r.XY()
 	vfAssert(ok, "collection: non-empty")
 	vfAssert(vfOr(vfEqXY(rxy, a), vfOr(vfEqXY(rxy, b), vfEqXY(rxy, c))), "collection: taken from the member of highest dimension (a line vertex)")
+	vfReach("end")
+}
+
+// PointOnSurface of (nested) collections with empty members of every kind:
+// empty iff the collection is empty, otherwise a point of a member of the
+// highest non-empty dimension.
+func vfhC15PointOnSurfaceNested() {
+	a, b := XY{0, 0}, XY{2, 2} // concrete shapes: the structure is what is symbolic here
+	e1 := vfEmpty(vfInt("e1", 0, vfNumEmpties-1), DimXY)
+	e2 := vfEmpty(vfInt("e2", 0, vfNumEmpties-1), DimXY)
+	line := vfLineXY(a, b).AsGeometry()
+	pt := vfPointXY(a).AsGeometry()
+	var g Geometry
+	wantLine := false
+	switch vfInt("shape", 0, 3) {
+	case 0: // nested: the inner collection holds an empty of any dimension next to the line
+		inner := NewGeometryCollection([]Geometry{e1, line}).AsGeometry()
+		g = NewGeometryCollection([]Geometry{inner, e2}).AsGeometry()
+		wantLine = true
+	case 1:
+		inner := NewGeometryCollection([]Geometry{e1, pt}).AsGeometry()
+		g = NewGeometryCollection([]Geometry{e2, inner}).AsGeometry()
+	case 2:
+		g = NewGeometryCollection([]Geometry{e1, pt, e2, line}).AsGeometry()
+		wantLine = true
+	default:
+		g = NewGeometryCollection([]Geometry{e1, NewGeometryCollection([]Geometry{e2}).AsGeometry()}).AsGeometry()
+	}
+	p := g.PointOnSurface()
+	vfAssert(p.IsEmpty() == g.IsEmpty(), "PointOnSurface is empty iff the geometry is empty")
+	if !g.IsEmpty() {
+		xy, _ := p.XY()
+		if wantLine {
+			vfAssert(vfOnSeg(xy, a, b), "the point lies on the member of the highest non-empty dimension (the line)")
+		} else {
+			vfAssert(vfEqXY(xy, a), "the point is the only non-empty member")
+		}
+		vfReach("non-empty")
+	} else {
+		vfReach("empty")
+	}
 	vfReach("end")
 }
